@@ -50,6 +50,9 @@ type Result struct {
 	Elems []ElemPos
 	// Fields: response path of every field executed (resolver or not; __typename excluded), sorted
 	Fields []string
+	// NullingKeys: object response path -> response keys of its non-null fields that completed to
+	// null (each of them nulls the object)
+	NullingKeys map[string][]string
 }
 
 type ElemPos struct {
@@ -285,6 +288,10 @@ func (x *executor) selectionSet(obj *ast.Definition, objKey string, sets []ast.S
 		v, isNull := x.field(obj, objKey, fd, fields, fpath)
 		if isNull && fd.Type.NonNull {
 			objNull = true
+			if x.res.NullingKeys == nil {
+				x.res.NullingKeys = map[string][]string{}
+			}
+			x.res.NullingKeys[path] = append(x.res.NullingKeys[path], rk)
 		}
 		out.Keys = append(out.Keys, rk)
 		out.Vals = append(out.Vals, v)
